@@ -18,6 +18,7 @@ sys.path.insert(0, VERIF)
 from checks import CHECKS, VARIANTS_ALL   # table: property -> jobs
 
 CURRENT_PROP = ""      # the property being checked: workers minimise the violation of this property when a run violates several
+HANG_TIMEOUT_S = 300    # a plan that runs alone for this long without finishing is a hang (ordinary plans take seconds; loops without calls escape the logical step budget)
 FATAL_KIND = {77: "sanitizer", 76: "terminate", 78: "deadlock", 79: "step_budget"}
 
 
@@ -187,7 +188,11 @@ def replay_file(path, quiet=False):
     if doc.get("differential") or doc.get("valgrind") or doc.get("tsan_sig"):
         return replay_stage(doc, variant, tmp, env, quiet)
     try:
-        p = subprocess.run(doc.get("wrapper", []) + [simrun_path(variant), "--plan", tmp] + doc.get("args", []), stdout=subprocess.PIPE, stderr=subprocess.PIPE, text=True, errors="replace", timeout=1800, env=env)
+        p = subprocess.run(doc.get("wrapper", []) + [simrun_path(variant), "--plan", tmp] + doc.get("args", []), stdout=subprocess.PIPE, stderr=subprocess.PIPE, text=True, errors="replace", timeout=HANG_TIMEOUT_S if doc.get("crash_kind") == "watchdog" else 1800, env=env)
+    except subprocess.TimeoutExpired:
+        ok = doc.get("crash_kind") == "watchdog"
+        if not quiet: log("replay: no result after %d s: %s" % (HANG_TIMEOUT_S, "REPRODUCED (hang)" if ok else "timed out"))
+        return ok, "hang"
     finally:
         try: os.unlink(tmp)
         except OSError: pass
@@ -311,12 +316,14 @@ def minimise_crash(job, tier, crash):
         tmp = os.path.join(env["TMPDIR"], "min_%d_%d.plan" % (os.getpid(), threading.get_ident()))
         open(tmp, "w").write("\n".join(head + ops_try) + "\n")
         try:
-            q = subprocess.run(crash.get("wrapper", []) + [sr, "--plan", tmp] + crash.get("args", []), stdout=subprocess.PIPE, stderr=subprocess.PIPE, text=True, errors="replace", timeout=600, env=env)
+            q = subprocess.run(crash.get("wrapper", []) + [sr, "--plan", tmp] + crash.get("args", []), stdout=subprocess.PIPE, stderr=subprocess.PIPE, text=True, errors="replace", timeout=HANG_TIMEOUT_S if crash.get("kind") == "watchdog" else 600, env=env)
         except subprocess.TimeoutExpired:
-            return False
+            return crash.get("kind") == "watchdog"      # a hang is confirmed when the plan, run alone, does not finish either
         finally:
             try: os.unlink(tmp)
             except OSError: pass
+        if crash.get("kind") == "watchdog":
+            return False
         if q.returncode != crash["rc"]:
             return False
         mf = re.search(r"@@FATAL [^\n]*", q.stdout)
@@ -325,6 +332,8 @@ def minimise_crash(job, tier, crash):
 
     if not dies(ops):
         return None, tries[0]
+    if crash.get("kind") == "watchdog":
+        return "\n".join(head + ops), tries[0]        # (no minimisation: every attempt would cost the hang time-out)
     chunk = max(1, len(ops) // 2)
     while chunk >= 1 and ops and tries[0] < 40:
         progress = False; i = 0
